@@ -21,6 +21,8 @@ Keep == UNCHANGED <<tid, l>>
 Counters == /\ \A f \in Flows : cnt'[f] = Ev.cnt[f] /\ byt'[f] = Ev.byt[f]
             /\ Ev.tot = (LET RECURSIVE S(_) S(f) == IF f = 0 THEN 0 ELSE cnt'[f] + S(f - 1) IN S(cfg.nf))
 Pis == Ev.pis = (IF srv' # <<>> /\ started' THEN srv'[1].id ELSE 0)
+\* packets still in the scheduler's sub-queues (when the implementation exposes them): pins the Select step
+Wt == Ev.wt = -1 \/ Ev.wt = Len(pool')
 PolicyBound(k) ==
   /\ Bind = "WFQ" => (F'[k] = Ev.fk /\ V' = Ev.v)
   /\ Bind = "VC"  => aux'[k] = Ev.fk
@@ -28,11 +30,11 @@ PolicyBound(k) ==
 
 ArriveEv == /\ Here /\ Ev.e = "A"
             /\ Arrive(Ev.id, Ev.f, Ev.sz)
-            /\ Counters /\ Pis /\ PolicyBound(cfg.f2c[Ev.f]) /\ Consume
+            /\ Counters /\ Pis /\ Wt /\ PolicyBound(cfg.f2c[Ev.f]) /\ Consume
 \* the tap sits inside the downstream put(): counters are already decremented
 DepartEv == /\ Here /\ Ev.e = "D"
             /\ srv # <<>> /\ srv[1].id = Ev.id
-            /\ Depart /\ Counters
+            /\ Depart /\ Counters /\ Wt
             /\ (Bind = "DRR" => \A c \in Classes : credit'[c] = Ev.cr[c])
             /\ Consume
 SampleEv == /\ Here /\ Ev.e = "S"
